@@ -22,7 +22,7 @@ DRIVER = 'Driver/C08.lean'
 REQUIRED_THEOREMS = ['CfVerif.C08.' + t for t in (
     'header_lossless', 'emit_decodes', 'emit_complete', 'unrepresentable_raises', 'emit_port_channel_size', 'lopo_payload_decodes', 'thrust_out_of_range_raises',
     'thrust_float_never_sent', 'int16_overflow_raises', 'f64ToInt_trunc', 'compress_quaternion_layout', 'iLargest_is_max',
-    'bsMask_testBit', 'lh_persist_invalid_raises', 'lh_persist_live_counterexample', 'neg_int_zero',
+    'bsMask_testBit', 'spiral_comparisons_exact', 'f64ToInt_nan_inf_raise', 'lh_persist_invalid_raises', 'lh_persist_live_counterexample', 'neg_int_zero',
     'gen_emitters', 'gen_setpoint', 'gen_hover', 'gen_fullState', 'gen_hlGoTo', 'gen_hlSpiral', 'gen_lhPersist', 'gen_lhPersist_detail', 'gen_packet',
     'gen_compress_quaternion')]
 TRUSTED = ['harness/corr/c08.py extractor + correspondence + Python twin of the firmware decoder',
